@@ -16,8 +16,8 @@ CLAIMED = {
    note="Kernel only. Trusted: rustc MIR, mirsym models (HashSet as list, stable insertion sort executing the closure's MIR), ideal commit ids, z3. Outside: rewind/patch I/O on client and server, sync orders, three devices, convergence (C04).",
    design="DESIGN.md section 3, C05"),
  "C06": dict(
-   text="Bounded model checking of the file-system log format: the real encoder (<EventRecord as Encodable>::encode) writes k <= 2 (quick) / 3 (thorough) records with symbolic time, commits and payload bytes behind the identity bytes, and the real iterator (FormatStream::next_forward / next_back, EventLogRecord::decode, byte_length) reads them back, both from the MIR of the current tree. z3 decides, for every value of the symbolic fields, that forward iteration yields exactly the appended records in order with their timestamps and commits, that every row's offsets frame exactly the encoder's bytes and its value range is the payload, that backward iteration is the mirror image and that byte lengths add up to the file length minus the header.",
-   note="Format layer of the file-system backend only. Trusted: rustc MIR, mirsym and its reader/writer models, z3. Outside: the per-operation file I/O of apply/rewind/clear/replace_all (vfs model not built), the sqlite backend, cross-backend agreement, co-resident logs, advisory locks; that stored commit hashes are SHA-256 of the event bytes.",
+   text="Bounded model checking of the file-system event log at two layers, both from the MIR of the current tree. Format layer: the real encoder (<EventRecord as Encodable>::encode) writes k <= 2 (quick) / 3 (thorough) records with symbolic time, commits and payload bytes behind the identity bytes and the real iterator (FormatStream::next_forward / next_back, EventLogRecord::decode, byte_length) reads them back; z3 decides that forward iteration yields exactly the appended records in order, that offsets frame exactly the encoder's bytes, that backward iteration is the mirror image and that byte lengths add up. Operation layer: FileSystemEventLog::{apply_records, rewind, clear/truncate, load_tree, patch_unchecked} run over a model of the file API from a log of symbolic records (commits from a small pool so byte-identical events occur; plain and versioned headers); after every operation the in-memory tree equals the tree a fresh instance loads from the file, record count and order match, and a rewind removes exactly the suffix. Counterexamples are replayed on a real FolderEventLog in a temp directory.",
+   note="File-system backend only. Trusted: rustc MIR, mirsym and its reader/writer and vfs models (atomic file operations, no I/O errors), the ideal-hash rs_merkle model (validated in C08), z3. Outside: the sqlite backend, cross-backend agreement, co-resident logs, advisory locks; that stored commit hashes are SHA-256 of the event bytes (C16 kernel).",
    design="DESIGN.md section 3, C06"),
  "C12": dict(
    text="Bounded model checking of the reducer/compaction kernel: FolderReducer::{reduce,compact,build}, Vault::{into_event,set_name,flags_mut,insert_entry,...} and the vault codec they call run from the MIR of the current tree on every sequence of <= 2 (quick) / 3 (thorough) event kinds after CreateVault, with symbolic names, flags, meta blobs, ids from a pool of two and entries. z3 decides per path that build(reduce(compact(reduce(L)))) equals build(reduce(L)) on name, flags, meta and the id->entry map and that the compacted log has 1 + #live-secrets events; counterexamples are replayed on a real file-system event log.",
@@ -40,13 +40,17 @@ CLAIMED = {
    note="File-system event log only; each modelled file operation is atomic and torn writes are modelled for appends. Known findings (torn tail is not recovered; replace_all_events is not crash-atomic) are listed in known_findings.txt. Outside: sqlite transactions, vault-file rewrites, multi-file operations of LocalAccount, the OS's real write atomicity, 'the folder served equals the replay of its log' after restart.",
    design="DESIGN.md section 3, C13"),
  "C11": dict(
-   text="Bounded model checking of the server's decision functions from the MIR of sos-server: (A) AccessControlConfig::is_allowed_access for every configuration of <= 2 (quick) / 3 allow and deny entries (each list present or absent) with symbolic account ids - an id on the deny list or absent from a configured allow list is refused, everything else admitted; counterexamples replayed natively. (B) authenticate_endpoint with bearer(), BearerToken::new and Backend::verify_device: over header id present/absent, token with/without the legacy '.' form, account existing or not, 0..2 trusted device keys each verifying or not, four access configurations - a caller is returned only if the token has the current form, the access check passed and, for an existing account, a trusted key verified the signature over exactly the signed bytes it was given.",
-   note="Decision functions only. Trusted: rustc MIR, mirsym, harness models (Ed25519 verify as an uninterpreted predicate per key, bs58/signature decoding nondeterministic, uncontended locks), z3. Part B counterexamples are model-level (the function is private, only reachable through HTTP). Outside (the larger part of C11): that each route calls authenticate_endpoint with the right bytes, revocation refresh, side effects of refused requests.",
+   text="Bounded model checking of the server's decision functions from the MIR of sos-server: (A) AccessControlConfig::is_allowed_access for every configuration of <= 2 (quick) / 3 allow and deny entries (each list present or absent) with symbolic account ids - an id on the deny list or absent from a configured allow list is refused, everything else admitted; counterexamples replayed natively. (B) authenticate_endpoint with bearer(), BearerToken::new and Backend::verify_device: over header id present/absent, token with/without the legacy '.' form, account existing or not, 0..2 trusted device keys each verifying or not, four access configurations - a caller is returned only if the token has the current form, the access check passed and, for an existing account, a trusted key verified the signature over exactly the signed bytes it was given. (C) the trusted-device cache that verify_device consults: <SyncImpl<T> as Merge>::merge_device and ForceMerge::force_merge_device (override or provided method) with DeviceReducer::reduce, from the MIR of sos-server-storage / sos-sync / sos-reducers, over every trust/revoke sequence of 1..2 log events and 1..2 (3) patch events with symbolic keys - after every call that changed the device log the set given to set_devices equals the keys trusted by replaying the new log; counterexamples replayed on a real file-system ServerStorage.",
+   note="Decision functions only. Trusted: rustc MIR, mirsym, harness models (Ed25519 verify as an uninterpreted predicate per key, bs58/signature decoding nondeterministic, uncontended locks), z3. Part B counterexamples are model-level (the function is private, only reachable through HTTP). Part C: the device log is the harness's record list (patch_checked / replace_all_events succeed or fail nondeterministically), T of SyncImpl<T> abstract. Outside (the larger part of C11): that each route calls authenticate_endpoint with the right bytes, side effects of refused requests, the sqlite server storage.",
    design="DESIGN.md section 3, C11"),
  "C08": dict(
    text="Bounded model checking of the real comparison code: CommitTree::{append,commit,head,proof,compare} and CommitProof::verify_leaves are executed from the MIR of the current tree for every pair of sequence lengths up to the bound (4x4 quick, 7x7 thorough) with symbolic leaf identifiers, so one solver query covers every equality pattern between the two logs (repeats, equal leaves over different prefixes). The oracle is the prefix relation on the raw sequences; z3 decides each implication per path, counterexamples are replayed on the real CommitTree. The tests use one pair of trees with unique leaves where one extends the other.",
    note="Trusted: rustc MIR, the mirsym interpreter, the ideal-hash port of rs_merkle 1.5 (compared with the real crate on every run: roots, leaves, proofs, verification matrix for sizes <= 8, batched commits, rollbacks), collision-freeness of SHA-256, z3. Bounds: sequence lengths. Outside: proof (de)serialisation (C14/C15), the network around the ancestor scan.",
    design="DESIGN.md section 3, C08"),
+ "C16": dict(
+   text="Bounded model checking of the comparison kernels of the integrity report: vault_integrity / vault_stream (file-system and database branch) and event_integrity run from the MIR of sos-integrity. Storage is symbolic: k <= 2 (quick) / 3 rows or records with symbolic content bytes (<= 4 per field) and 32 symbolic checksum bytes - for the database the rusqlite statement is a nondeterministic stub yielding such rows, for the file system a vault file on the vfs model read by the real FormatStream, for the event log its record sequence. SHA-256 is an ideal hash (Ackermann-encoded: well defined and injective), so 'intact' is checksum == sha(content) and 'any byte of content or checksum changed' is its negation. z3 decides per path: one report item per row, in order, and item i is a failure iff sha(content_i) != checksum_i. Counterexamples are translated to real SHA-256 witnesses and replayed on real storage (an in-memory sqlite database with the project's migrations, a vault file, a FolderEventLog).",
+   note="Kernel only. Trusted: rustc MIR, mirsym, harness stubs (tokio mpsc channel and spawn run sequentially, ReceiverStream / try_filter_map evaluated eagerly, rusqlite as row source), ideal SHA-256, z3. Outside: account_integrity's folder loop and cancellation, file_integrity (streaming SHA-256 of blobs under tokio::select!), missing vault/log/blob detection, real histories, sqlite itself.",
+   design="DESIGN.md section 3, C16"),
  "C15": dict(
    text="Bounded model checking of the real decoders: every binary Decodable entry point is executed symbolically from the MIR rustc emits for the current tree over an input buffer of symbolic length (<=64 quick / <=200 thorough) and unconstrained content; z3 decides every branch, so 'no panic, no oversized allocation' holds for every byte string within the bound or a concrete witness is produced and replayed against the natively built crates. Unit tests only decode what they just encoded; the solver reaches the tags and lengths no encoder emits.",
    note="Trusted: rustc's MIR for the nightly in this image, the mirsym interpreter and its library models (BinaryReader/Writer, std collections, time, uuid; each path's witness is re-run natively and must agree), z3. Bounds: input length, loop bound 48. Outside: zip archives, URLs, JSON bodies, the HTTP server loop, prost.",
@@ -54,8 +58,16 @@ CLAIMED = {
 }
 
 NA = {
+ "C01": "Read-your-writes over whole account histories runs through LocalAccount, client storage, AEAD encryption, tokio file I/O and sqlite (FFI): no bounded symbolic encoding of that stack is within reach of the MIR executor (Kani/CBMC measured infeasible on far smaller slices, DESIGN.md 1.1). The encodable slices are claimed separately (C02 vault/reducer step, C06 log persistence, C14 codecs).",
+ "C03": "'No plaintext anywhere' is an information-flow (non-interference) claim over every sink of client, server, sqlite pages and the wire, not an assertion over the inputs of a function; a solver query over the real code would need the whole I/O stack and the ciphers encoded.",
+ "C04": "Convergence of 2-3 devices and a server is a liveness-style claim over histories x sync orders of networked async programs (reqwest/axum/tokio); the executor has no network or scheduler model. The encodable kernels are claimed as C08 (comparison) and C05 (merge_patches).",
+ "C09": "Quantifies over interleavings of concurrent requests; the single-poll executor models no concurrency and Kani does not handle concurrent code.",
+ "C10": "Authenticity, key separation and nonce freshness are computational properties of AES-GCM, XChaCha20-Poly1305, Argon2 and the OS RNG (loops over input, 64-bit multiplications, FFI randomness): out of reach of bit-precise solving; the AeadPack framing is covered by C14/C15.",
+ "C17": "Content addressing of uploads depends on streaming SHA-256 over real bytes plus file-system and HTTP state on two machines (axum body streams, tokio::fs); no function-level kernel carries the property.",
+ "C18": "Archive export/import runs through async_zip, sanitize_filename (regex) and directory extraction on a real file system; none of these has MIR in the workspace nor a model in the executor.",
+ "C19": "The upgrader copies real account directories into sqlite through rusqlite (FFI); its oracle needs both backends executing the same history.",
 }
-DEFAULT_NA = "check not built yet (see DESIGN.md section 5 for the build order)"
+DEFAULT_NA = "no solver-based check of the real code could be built for this property (see DESIGN.md section 4)"
 
 checks = []
 for pid, c in CLAIMED.items():
